@@ -13,10 +13,10 @@ PY_PLACE = "PyLib PySrcBase PySrcPlace PySrcPlaceFacts"   # petri_net_translatio
 PY_SD = "PyLib PyLibSd PySrcSdBase PySrcSd PySrcSdFacts"              # _sd_algorithms/expand_bfs.py, expand_dfs.py
 PY_TARGET = "PyLibSd PySrcSdBase PySrcSdTarget PySrcSdTargetFacts"   # _sd_algorithms/expand_to_target.py
 PY_CORE = "PyLibCore PySrcCore PySrcCoreFacts"                    # succession_diagram.py: _update_node_depth, _ensure_edge, _ensure_node, _expand_one_node, node_successors, node_is_minimal, __len__, root
-PY_CORE2 = PY_CORE + " PyLibCore2 PySrcCore2 PySrcCore2Facts"    # succession_diagram.py: skip_to_minimal, skip_remaining, depth, reclaim_node_data
+PY_CORE2 = PY_CORE + " PyLibCore2 PySrcCore2 PySrcCore2Facts PySrcInitFacts"    # succession_diagram.py: skip_to_minimal, skip_remaining, depth, reclaim_node_data
 PY_MIN = "PyLib PyLibSd PyLibCore PyLibSd2 PySrcSdBase PySrcSdMin PySrcSdMinFacts"   # _sd_algorithms/expand_minimal_spaces.py
 PY_ASEEDS = PY_MIN + " Candidates Blocks ASeeds PySrcSdASeeds PySrcSdASeedsFacts"     # _sd_algorithms/expand_attractor_seeds.py
-EXTRA_IMPORTS = {"C02": PY_SD + " " + PY_CORE, "C03": PY_SD + " " + PY_ASEEDS, "C04": PY_SD + " " + PY_CORE, "C05": PY_CORE2 + " " + PY_MIN, "C14": PY_CORE2, "C15": PY_SD + " " + PY_TARGET + " " + PY_ASEEDS,
+EXTRA_IMPORTS = {"C02": PY_SD + " " + PY_CORE2, "C03": PY_SD + " " + PY_ASEEDS, "C04": PY_SD + " " + PY_CORE, "C05": PY_CORE2 + " " + PY_MIN, "C14": PY_CORE2, "C15": PY_SD + " " + PY_TARGET + " " + PY_ASEEDS, "C16": "PyLib PyLibPickle PySrcPickle PySrcPickleFacts " + PY_CORE2,
                  "C06": PY_SPACE + " " + PY_TARGET, "C10": PY_PLACE, "C19": PY_SD + " " + PY_CORE, "C20": PY_KEY + " " + PY_CORE2}
 
 def imports_for(pid):
@@ -110,6 +110,7 @@ each once; at the root those fixing every source), root = percolation of the who
  theorems=[("source_expand_one_node", "py_expand_one_node_spec", "translator tie: the function GENERATED from the current text of SuccessionDiagram._expand_one_node (PySrcCore.v; embedding PyLibCore.v) computes Diagram.expand_one for every diagram satisfying the class invariant CoreInv, every oracle for the percolated-net cache, and preserves CoreInv"),
            ("source_ensure_node", "py_ensure_node_spec", "... _ensure_node / _ensure_edge / _update_node_depth compute Diagram.ensure_node"),
            ("source_class_invariant_initially", "init_CoreInv", None),
+           ("source_init", "py_init_spec", "translator tie: SuccessionDiagram.__init__ as generated from the source builds the model's initial diagram (root = percolation of the whole space) and establishes the class invariant"),
            ("source_expand_bfs", "py_expand_bfs_spec_all", "translator tie: the function GENERATED from the current text of biobalm/_sd_algorithms/expand_bfs.py (PySrcSd.v, regenerated on every run; embedding PyLibSd.v) equals the model's expand_bfs for every diagram, every limit and every fuel"),
            ("source_expand_dfs", "py_expand_dfs_spec_all", "... and expand_dfs.py the model's expand_dfs"),
            ("source_public_expand_bfs", "py_api_expand_bfs_spec", "the public methods SuccessionDiagram.expand_bfs / expand_dfs (generated from the source: they pass their parameters on in order)"), ("source_public_expand_dfs", "py_api_expand_dfs_spec", None),
@@ -448,7 +449,10 @@ tag of nodes whose seeds are known.  reclaim_transparent: the runs from d and fr
 results and on everything observable (obs_eq: all fields except candidates of nodes with known seeds).
 PARTIAL: that Python's pickle and AEON's text round trip reproduce the fields is runtime behaviour, decided by
 running two real diagrams side by side.""",
- theorems=[("reclaim_transparent", "reclaim_transparent", None), ("step_respects_observation", "step_obs_eq", None), ("reclaim_obs_eq", "reclaim_obs_eq", None),
+ theorems=[("source_pickle_round_trip", "py_pickle_round_trip", "translator tie: __setstate__ applied to the result of __getstate__ (both GENERATED from the current source, PySrcPickle.v) rebuilds the object attribute by attribute, given the AEON text round trip of the cleaned network and symbolic = AsynchronousGraph(network): the model's OPickle = identity"),
+           ("source_pickle_keeps_config", "py_pickle_keeps_config", "the configuration, the graph, the node index, the Petri net and the NFVS come back verbatim, unconditionally"),
+           ("source_reclaim_node_data", "py_reclaim_node_data_spec", "reclaim_node_data as generated from the source = Diagram.reclaim"),
+           ("reclaim_transparent", "reclaim_transparent", None), ("step_respects_observation", "step_obs_eq", None), ("reclaim_obs_eq", "reclaim_obs_eq", None),
            ("reclaim_keeps_wellformed", "reclaim_SWF", None), ("reclaim_CacheOK", "reclaim_CacheOK", None),
            ("reclaim_extends", "reclaim_extends", None), ("step_extends", "step_extends", None),
            ("block_expansion_blind_to_reclaim", "expand_block_obs_eq", "the strategies that are not single ops: run on observationally equal diagrams they give equal results and observationally equal diagrams"),
@@ -531,7 +535,8 @@ SPEC["C20"] = dict(title="Reported diagram metadata is accurate", comment="""
 Model: node ids are list positions (contiguous from the root at 0, len = size); depths are maintained by
 raise_depth; find_node goes through the integer key; ObsFacts.is_subgraph_b models is_subgraph (after fix 087feea).
 PARTIAL: summary() is not modelled; it is decided by recomputation in the run.""",
- theorems=[("source_depth", "py_depth_spec", "translator tie: SuccessionDiagram.depth as generated from the source = Diagram.depth"),
+ theorems=[("source_init", "py_init_spec", None),
+           ("source_depth", "py_depth_spec", "translator tie: SuccessionDiagram.depth as generated from the source = Diagram.depth"),
            ("source_ensure_node", "py_ensure_node_spec", "... _ensure_node / _ensure_edge / _update_node_depth compute Diagram.ensure_node"),
            ("source_len", "py_len_spec", "translator tie: __len__, root and node_is_minimal as generated from the source"), ("source_root", "py_root_spec", None), ("source_node_is_minimal", "py_node_is_minimal_spec", None),
            ("find_node_exact", "find_node_exact", None), ("find_node_none", "find_node_none", None), ("step_extends", "step_extends", "ids and spaces are stable"),
